@@ -94,7 +94,7 @@ pub(crate) fn parse_directive(jsx_attr: &JSXAttr, is_component: bool) -> Directi
         if let Expr::Array(ArrayLit { elems, .. }) = &**expr {
             value = match elems.first() {
                 Some(Some(ExprOrSpread { spread: None, expr })) => (**expr).clone(),
-                _ => Expr::Ident(quote_ident!("").into()),
+                _ => undefined(),
             };
             if let Some(Some(ExprOrSpread { spread: None, expr })) = elems.get(1) {
                 match &**expr {
@@ -121,7 +121,12 @@ pub(crate) fn parse_directive(jsx_attr: &JSXAttr, is_component: bool) -> Directi
         }
     } else {
         modifiers = Some(splitted.map(Atom::from).collect());
-        value = Expr::Ident(quote_ident!("").into());
+        value = match &jsx_attr.value {
+            // `v-dir="text"`: the string is the value
+            Some(JSXAttrValue::Lit(lit)) => Expr::Lit(lit.clone()),
+            // `v-dir` without a value
+            _ => undefined(),
+        };
     }
 
     Directive::Normal(NormalDirective {
@@ -147,6 +152,18 @@ pub(crate) fn parse_directive(jsx_attr: &JSXAttr, is_component: bool) -> Directi
         },
         modifiers: modifiers.and_then(|modifiers| transform_modifiers(modifiers, false)),
         value,
+    })
+}
+
+fn undefined() -> Expr {
+    Expr::Unary(UnaryExpr {
+        span: DUMMY_SP,
+        op: op!("void"),
+        arg: Box::new(Expr::Lit(Lit::Num(Number {
+            span: DUMMY_SP,
+            value: 0.0,
+            raw: None,
+        }))),
     })
 }
 
